@@ -539,6 +539,19 @@ pub fn big_conn(rng: &mut Rng, nmin: usize, nmax: usize) -> Abs {
             }
         }
     }
+    // now and then a hub with many *outgoing* attacks (16-40 targets), sometimes attacking itself
+    if n >= 45 && rng.pct(25) {
+        let h = rng.below(n);
+        for _ in 0..rng.range(16, 40) {
+            let b = rng.below(n);
+            if b != h {
+                att.push((h, b));
+            }
+        }
+        if rng.pct(60) {
+            att.push((h, h));
+        }
+    }
     att.sort();
     att.dedup();
     rng.shuffle(&mut att);
